@@ -24,6 +24,142 @@ fn repeat_factor(p: &Node) -> f64 {
     f
 }
 
+
+/// Hook invariant: every alternative the VM takes up again has been counted against the limit
+/// (the only uncounted pops are the ones with which a failing negative look-around throws away
+/// its own alternatives).
+fn uncounted(acc: &mut Acc, h: &HookStats, s: &str, t: &str, api: &str) {
+    if h.uncounted_resumes > 0 {
+        let mut v = Violation::new("C07", "uncounted-resume", s, t, 0, api, "every resumed alternative is counted against the backtrack limit".into(), format!("{} alternatives resumed without being counted ({} counted)", h.uncounted_resumes, h.last_backtracks));
+        v.note = "hook: a pop outside a negative look-around's discard loop that was not preceded by the failure path's increment of the backtrack counter".into();
+        acc.violate(v);
+    }
+}
+
+/// Catastrophic families: an ambiguous core whose 2^n ways of matching all die in the tail, on
+/// a text long enough that nothing else fails. Whatever instruction the failures come from, a
+/// small backtrack limit must end the search after a number of steps proportional to the limit.
+fn families() -> Vec<(String, String)> {
+    let mut v = vec![];
+    let tails: [(&str, &str); 16] = [
+        ("", "(?!a)"), ("", "(?<!a)"), ("", "(?=b)"), ("", "(?<=b)"), ("", "b"), ("", "[bc]"), ("", "\\b"), ("", "$"), ("", "\\z"), ("", "(?>b)"),
+        ("(b)?", "\\1"), ("(b)?", "(?(1)b|b)"), ("", "\\Gb"), ("", "(?!a|$)b?"), ("", "(?:(?!a))"), ("", "(?<![ab])"),
+    ];
+    for n in [18usize, 22] {
+        let cores = [format!("(?:a|aa){{{}}}", n), format!("(?:a(?=)|a){{{}}}", n), format!("(?:(?:a|aa){{{}}})", n / 2).repeat(2), format!("(?:a|aa){{{},{}}}?", n - 1, n), format!("(?>(?:a|aa){{{}}}(?!a))|(?:a|aa){{{}}}", n, n)];
+        for (ci, core) in cores.iter().enumerate() {
+            for (pre, tail) in tails {
+                for anchor in ["^", ""] {
+                    if anchor.is_empty() && ci > 1 {
+                        continue;
+                    }
+                    v.push((format!("{}{}{}{}", anchor, pre, core, tail), "a".repeat(2 * n + 3)));
+                }
+            }
+        }
+    }
+    v
+}
+
+const EFF_LIMITS: [usize; 2] = [100, 5000];
+const EFF_CAP: u64 = 60_000_000;
+
+fn efficacy(ctx: &Ctx, sample: &[Node]) -> Acc {
+    #[derive(Clone)]
+    struct Item {
+        pattern: String,
+        text: String,
+        family: bool,
+        depth: u32,
+        rf: f64,
+    }
+    let mut items: Vec<Item> = families().into_iter().map(|(pattern, text)| Item { pattern, text, family: true, depth: 1, rf: 1.0 }).collect();
+    // the same question on seeded patterns of the unrestricted space with long texts
+    let long_texts = ["aaaaaaaaaaaaaaaaaaaaaaaa", "aaaaaaaaaaaaaaaaaaaaaaab", "ababababababababababababab", "aéaéaéaéaéaéaéaéaéaé😀", "a\na\na\naaaaaaaaaaaaaaaa"];
+    let mut rng = Rng::new(ctx.seed ^ 0xEFF);
+    for p in sample {
+        if !p.refs_exist() || !rng.chance(1, ctx.tier.pick(6, 3)) {
+            continue;
+        }
+        let depth = look_depth(p);
+        for t in long_texts {
+            items.push(Item { pattern: p.print(), text: t.to_string(), family: false, depth, rf: repeat_factor(p) });
+        }
+    }
+    par_run(&items, false, Some(EFF_CAP), |_, it, acc| {
+        for l in EFF_LIMITS {
+            let Some(re) = build(&it.pattern, l) else {
+                acc.count("efficacy:compile-err");
+                return;
+            };
+            let Route::Vm { insns: prog_len, .. } = route(&re) else {
+                acc.count("efficacy:wrapped");
+                return;
+            };
+            acc.evals += 1;
+            let _ = hook_take();
+            let r = find_from(&re, &it.text, 0);
+            let h = acc.take_hooks();
+            uncounted(acc, &h, &it.pattern, &it.text, &format!("find (backtrack_limit {})", l));
+            if !HOOKS {
+                if r.is_panic() {
+                    acc.violate(Violation::new("C07", "panic", &it.pattern, &it.text, 0, "find", "a value or Err".into(), r.show()));
+                }
+                continue;
+            }
+            let chars = it.text.chars().count() as f64 + 2.0;
+            // per counted backtrack the VM may run forward over the text once per program
+            // position (and once more per enclosing look-around, which rewinds the position)
+            let k = if it.family { 8.0 * prog_len as f64 * chars } else { 64.0 * prog_len as f64 * chars.powi(1 + it.depth.min(3) as i32) * it.rf };
+            let b = h.last_backtracks.min(l as u64 + 1);
+            let bound = (b as f64 + 2.0) * k;
+            acc.max(if it.family { "efficacy:family-steps/bound-ppm" } else { "efficacy:sample-steps/bound-ppm" }, (h.insns as f64 / bound * 1e6) as u64);
+            acc.max("efficacy:steps-in-one-run", h.insns);
+            if h.insns as f64 > bound {
+                let mut v = Violation::new("C07", "limit-efficacy", &it.pattern, &it.text, 0, "find", format!("<= (min(B, L)+2)*K = {:.0} VM steps under backtrack_limit {} ({} backtracks counted)", bound, l, h.last_backtracks), format!("{} steps{}", h.insns, if r.is_step_cap() { " (step cap hit: the limit did not end the run)" } else { "" }));
+                v.options = json!({"backtrack_limit": l});
+                v.note = format!("K = {:.0}", k);
+                acc.violate(v);
+                if r.is_step_cap() {
+                    return;
+                }
+                continue;
+            }
+            if r.is_step_cap() {
+                acc.inconclusive += 1;
+                return;
+            }
+            if r.is_panic() {
+                acc.violate(Violation::new("C07", "panic", &it.pattern, &it.text, 0, "find", "a value or Err".into(), r.show()));
+                continue;
+            }
+            if it.family {
+                // none of the family patterns can match its text
+                let ok = r == Got::Err(BT_ERR.into()) || r == Got::Val(None);
+                if !ok {
+                    let mut v = Violation::new("C07", "limit-semantics", &it.pattern, &it.text, 0, "find", "BacktrackLimitExceeded or no match".into(), r.show());
+                    v.options = json!({"backtrack_limit": l});
+                    acc.violate(v);
+                }
+                if r == Got::Err(BT_ERR.into()) {
+                    acc.count("efficacy:family-runs-ended-by-the-limit");
+                }
+                acc.count("efficacy:family-runs");
+            } else {
+                if r == Got::Err(BT_ERR.into()) {
+                    acc.count("efficacy:sample-runs-ended-by-the-limit");
+                }
+                acc.count("efficacy:sample-runs");
+            }
+        }
+    })
+}
+
+fn look_depth(p: &Node) -> u32 {
+    let below = p.children().iter().map(|c| look_depth(c)).max().unwrap_or(0);
+    below + if matches!(p, Node::Look(..) | Node::CondExpr(..)) { 1 } else { 0 }
+}
+
 fn build(s: &str, l: usize) -> Option<Regex> {
     compile_with(s, |b| {
         b.backtrack_limit(l);
@@ -90,6 +226,7 @@ pub fn run(ctx: &Ctx) -> Outcome {
             let a = find_from(&re, t, 0);
             let h = acc.take_hooks();
             let (b, steps) = (h.last_backtracks, h.insns);
+            uncounted(acc, &h, &s, t, "find (default limit)");
             let k = k_factor * (t.chars().count() as f64 + 2.0);
             let bound = (b as f64 + 1.0) * k;
             if HOOKS {
@@ -140,7 +277,8 @@ pub fn run(ctx: &Ctx) -> Outcome {
             // clause 1: limits
             let check = |acc: &mut Acc, l: usize, lre: &Regex| -> bool {
                 let r = find_from(lre, t, 0);
-                let _ = acc.take_hooks();
+                let hl = acc.take_hooks();
+                uncounted(acc, &hl, &s, t, &format!("find (backtrack_limit {})", l));
                 // without hooks the number of backtracks needed is unknown: only "limit error or the
                 // same answer" can be judged per limit (monotonicity is checked over the limit list)
                 let ok = if HOOKS && (l as u64) >= b { r == a } else { r == a || r == Got::Err(BT_ERR.into()) };
@@ -197,14 +335,21 @@ pub fn run(ctx: &Ctx) -> Outcome {
             acc.sample(2, || json!({"pattern": s, "prog_len": prog_len}));
         }
     });
+    let mut acc = acc;
+    let n_fam = families().len();
+    acc.merge(efficacy(ctx, &patterns));
     let mut out = Outcome::new(acc);
     out.distinct_nontrivial = out.acc.distinct;
-    out.rule = format!("{}{}; x all {} texts over 1-4 byte characters up to length 3. Per (pattern, text): run with the default limit, read backtracks B / VM steps S through the hook, then (1) for L in {{0,1,2,3,5,10,100,10^6}} and the exact thresholds L = B and L = B-1: L >= B => same answer, L < B => BacktrackLimitExceeded or the same answer; (2) S <= (B+1)*256*|prog|*(chars+2)*prod(1+count), enforced online by a VM step cap of {} so a non-terminating run is observed as a cap hit; (3) if the reference explores the case within 5000 steps the default-limit run must not report StackOverflow / BacktrackLimitExceeded. Non-trivial: distinct VM patterns with B >= 1 on some text for which limits fell on both sides of B.", sp.describe, if ctx.tier == Tier::Quick { " + a seeded twelfth of the 4-node trees" } else { "" }, texts.len(), STEP_CAP);
+    out.rule = format!("{}{}; x all {} texts over 1-4 byte characters up to length 3. Per (pattern, text): run with the default limit, read backtracks B / VM steps S through the hook, then (1) for L in {{0,1,2,3,5,10,100,10^6}} and the exact thresholds L = B and L = B-1: L >= B => same answer, L < B => BacktrackLimitExceeded or the same answer; (2) S <= (B+1)*256*|prog|*(chars+2)*prod(1+count), enforced online by a VM step cap of {} so a non-terminating run is observed as a cap hit; (3) if the reference explores the case within 5000 steps the default-limit run must not report StackOverflow / BacktrackLimitExceeded. (4) hook invariant on every run: no alternative is resumed without having been counted against the limit; (5) limit efficacy on long texts: {} catastrophic family patterns (ambiguous cores (?:a|aa){{n}}, (?:a(?=)|a){{n}}, split and lazy counted variants, n = 18 / 22, x 16 tails that fail through a different instruction each: negative / positive look-ahead and look-behind, literal, class delegate, \\b, $, \\z, atomic group, unset backreference, group condition, \\G) on a^(2n+3), and a seeded sample of the space on 5 texts of 20-26 characters, each under backtrack limits 100 and 5000: the run must end with BacktrackLimitExceeded or the answer after <= (min(B, L)+2)*K steps (families: K = 8*|prog|*(chars+2); sample: K = 64*|prog|*(chars+2)^(1+look-around depth)*prod(1+count)), step cap {}. Non-trivial: distinct VM patterns with B >= 1 on some text for which limits fell on both sides of B.", sp.describe, if ctx.tier == Tier::Quick { " + a seeded twelfth of the 4-node trees" } else { "" }, texts.len(), STEP_CAP, n_fam, EFF_CAP);
     out.assumptions = vec!["the step bound K is a calibrated constant with >= two orders of magnitude of slack over every legitimate run observed (maxima.steps/bound-ppm reports how close this run came, in millionths)".into()];
     let et = out.acc.get("exact-threshold-cases");
     let vm = out.acc.get("route:vm");
-    out.extra = json!({"exact_threshold_cases": et, "limits": LIMITS});
+    out.extra = json!({"exact_threshold_cases": et, "limits": LIMITS, "efficacy": {"family_patterns": n_fam, "limits": EFF_LIMITS,
+        "family_runs": out.acc.get("efficacy:family-runs"), "family_runs_ended_by_the_limit": out.acc.get("efficacy:family-runs-ended-by-the-limit"),
+        "sample_runs": out.acc.get("efficacy:sample-runs"), "sample_runs_ended_by_the_limit": out.acc.get("efficacy:sample-runs-ended-by-the-limit")}});
     out.require(vm > 0, "no VM-route pattern");
+    let (fr, fl) = (out.acc.get("efficacy:family-runs"), out.acc.get("efficacy:family-runs-ended-by-the-limit"));
+    out.require(!HOOKS || (fr > 0 && fl * 2 > fr), "the catastrophic families were not ended by the backtrack limit often enough to say anything");
     out.require(!HOOKS || et > 0, "the exact threshold L = B-1 was never observed to fail");
     out
 }
